@@ -42,7 +42,7 @@ def mpirun(hosts, args, work, threads):
     env["GALOIS_VERIF_TOPO"] = str(threads)
     env["GALOIS_DO_NOT_BIND_THREADS"] = "1"
     env["OMPI_MCA_mpi_yield_when_idle"] = "1"  # ranks are oversubscribed on one machine
-    rc, out, err = run_cmd(["mpirun", "--allow-run-as-root", "--oversubscribe", "-np", str(hosts), DH] + args, timeout=120, env=env, cwd=work)
+    rc, out, err = run_cmd(["mpirun", "--allow-run-as-root", "--oversubscribe", "--bind-to", "none", "-np", str(hosts), DH] + args, timeout=120, env=env, cwd=work)
     if rc != 0:
         msg = "\n".join(l for l in (err + out).split("\n") if l and not l.startswith(("DEBUG", "STAT", "PARAM")))[-400:]
         raise Violation("tool-failed", "dharness under mpirun -np %d exited %d: %s" % (hosts, rc, msg))
